@@ -794,6 +794,8 @@ def list_segments(s: Summary, t, prov: Prov, depth: int = 0) -> list | None:
         conds = tuple((c, True) for c in ifs)
         from .terms import substitute
 
+        if op(it) == "new" and it[1] == "list" and len(it) > 4 and op(it[4]) == "list" and not s.mutations_of(it):
+            it = it[4]  # a local display (or itertools.chain) that is only iterated
         if op(it) in ("list", "tuple"):
             out = []
             for e in it[1]:
@@ -1099,6 +1101,94 @@ def guard_atoms(guards) -> list[tuple]:
         if g.kind == "guard":
             add(g.a, g.b)
     return out
+
+
+def canon_atom(t, pol=True):
+    """Canonical (atom, polarity) of a boolean leaf: negations stripped, comparisons positive."""
+    from .summ import _len_truth
+    from .terms import op as _op
+
+    while _op(t) in ("not", "truth"):
+        if _op(t) == "not":
+            pol = not pol
+        t = t[1]
+    neg = {"is not": "is", "!=": "==", "not in": "in"}
+    if _op(t) == "cmp" and t[1] in neg:
+        t, pol = ("cmp", neg[t[1]], t[2], t[3]), not pol
+    t, pol = _len_truth(t, pol)
+    return t, pol
+
+
+def formula_atoms(t, out=None) -> list:
+    """The canonical atoms of a boolean formula over and / or / not, in evaluation order."""
+    from .terms import op as _op
+
+    out = [] if out is None else out
+    u = t
+    while _op(u) in ("not", "truth"):
+        u = u[1]
+    if _op(u) in ("and", "or"):
+        for x in u[1]:
+            formula_atoms(x, out)
+    else:
+        a, _ = canon_atom(u)
+        if a not in out:
+            out.append(a)
+    return out
+
+
+def formula_eval(t, asg: dict) -> bool:
+    """Truth value of a formula under an assignment of its canonical atoms."""
+    from .terms import op as _op
+
+    if _op(t) == "not":
+        return not formula_eval(t[1], asg)
+    if _op(t) == "truth":
+        return formula_eval(t[1], asg)
+    if _op(t) == "and":
+        return all(formula_eval(x, asg) for x in t[1])
+    if _op(t) == "or":
+        return any(formula_eval(x, asg) for x in t[1])
+    a, pol = canon_atom(t)
+    return asg[a] == pol
+
+
+def path_atoms(paths) -> list:
+    """Canonical atoms tested by the top-level guards of sibling paths (one if-tree), in first-use order."""
+    out = []
+    for p in paths:
+        for ev in p.events:
+            if ev.kind == "guard":
+                for a in formula_atoms(ev.a):
+                    if a not in out:
+                        out.append(a)
+    return out
+
+
+def truth_table(paths, atoms=None, limit: int = 12):
+    """Decision table of sibling paths: for every assignment of the atoms, the paths whose guards it satisfies.
+
+    The paths of one if-tree partition the assignments, so the table is the boolean function the
+    tree computes - independent of how the tests were nested, merged with and/or, or negated."""
+    import itertools
+
+    atoms = path_atoms(paths) if atoms is None else atoms
+    if len(atoms) > limit:
+        return atoms, None
+    rows = []
+    for vals in itertools.product((True, False), repeat=len(atoms)):
+        asg = dict(zip(atoms, vals))
+        hit = []
+        for p in paths:
+            ok = True
+            for ev in p.events:
+                if ev.kind == "guard" and formula_eval(ev.a, asg) != ev.b:
+                    ok = False
+                    break
+            if ok:
+                hit.append(p)
+        rows.append((asg, hit))
+    return atoms, rows
 
 
 def fewer_than_two(t, pol, coll=None):
